@@ -314,9 +314,16 @@ def gen13(rng, n=30):
             c = rng.choice("EMH")
             ops.append(f"wstamp {c} {p} {rng.choice([0, 1, 7, 8193])} {rng.randint(0, 3)} {rng.randint(1, 5)} {'remove' if rng.random() < 0.2 else 'keep'}")
             kinds[nstamps] = (c, p); nstamps += 1     # provisional: not stored if the path is a directory (oracle/model agree on numbering via outputs)
-        elif r < 0.86 and kinds:
+        elif r < 0.84 and kinds:
             k = rng.choice(sorted(kinds)); c, p0 = kinds[k]
+            if "/" in str(p0): p0 = p
             ops.append(f"check {c} {p0 if rng.random() < 0.9 else p} {k}")
+        elif r < 0.90:
+            # a path below p: an error other than NotFound (ENOTDIR) while p is a regular file
+            if rng.random() < 0.6 or not kinds:
+                c = rng.choice("EMH"); ops.append(f"cstamp {c} {p}"); kinds[nstamps] = (c, f"{p}/zz"); nstamps += 1
+            else:
+                k = rng.choice(sorted(kinds)); ops.append(f"ccheck {kinds[k][0]} {p} {k}")
         elif r < 0.93: ops.append(f"readafter {rng.choice('EMH')} {p}")
         elif r < 0.96: ops.append(f"write {p} {rng.randint(1, 5)}")
         else: ops.append(f"state {p}")
@@ -399,6 +406,28 @@ def oracle13(case, lines):
                 if c2 == c and p2 == p and v2 == ver.get(p, 0) and txt2 != txt:
                     fails.append(f"'{op}': stamp {txt} differs from stamp {txt2} taken by another route of the same untouched state")
             stamps.append((c, p, txt, cur, ver.get(p, 0)))
+        elif t[0] == "cstamp":
+            par = st.get(t[2])
+            if par and par[0] == "file":
+                if res != "err": fails.append(f"'{op}': the parent is a regular file, the OS error must be returned, got {res}")
+                continue
+            m = re.match(r"s(\d+) (.*)", res)
+            if not m: fails.append(f"'{op}': {res}"); continue
+            txt = m.group(2)
+            if (t[1] == "E" and txt != "false") or (t[1] in "MH" and txt != "None"): fails.append(f"'{op}': stamp {txt} for an absent path")
+            stamps.append((t[1], t[2] + "/zz", txt, None, 0))
+        elif t[0] == "ccheck":
+            k = int(t[3])
+            if k >= len(stamps): continue
+            c, p, txt, st0, v0 = stamps[k]
+            if c != t[1]: continue
+            par = st.get(t[2])
+            if par and par[0] == "file":
+                if res != "err": fails.append(f"'{op}': the parent is a regular file, the OS error must be returned, got {res}")
+                continue
+            want = "consistent" if not st0 else "inconsistent"
+            if c == "M" and st0 and st0[-1] is None: want = None
+            if want is not None and res != want: fails.append(f"'{op}' against stamp #{k} ({txt} of {st0}): {res}, an absent path says {want}")
         elif t[0] == "check":
             k = int(t[3])
             if k >= len(stamps): continue
